@@ -88,6 +88,7 @@ Proof. exact EpochExamples.same_epoch_rounds_too_strong. Qed.
 Check C15_same_epoch_rounds_too_strong :
   ~ same_epoch_rounds Examples.ex12_prog Examples.ex_strat Examples.ex_cinit 12
       (clevel Examples.ex12_prog Examples.ex_strat Examples.ex_cinit 12 12) (1, 0) 1.
+Print Assumptions C15_same_epoch_rounds_too_strong.
 
 (* What IS an invariant of the model — for all programs, strategies and histories (writes,
    cancellation bumps, panics, nested cycles, every fuel) — is [EpochTop.epoch_inv strat s]
